@@ -8,6 +8,7 @@ the stream mapping of rip-kernel's EventKind, re-extracted from the source on ev
 -/
 import Rip.Lemmas.Wire
 import Rip.Driver.C03
+import Rip.Gen.EffectOrder
 namespace Rip.Props.C03
 open Rip.Wire
 
@@ -78,5 +79,15 @@ theorem unknown_keys_ignored (env : Env V) (S : Schema) (derive : Nat → List V
     (hx : ∀ kv ∈ extra, kv.1 ∉ S.readEnvelope ∧ kv.1 ≠ S.tagField ∧
           ∀ v, S.variants[f.variant]? = some v → kv.1 ∉ (v.fields.map fieldKeys).flatten) :
     decode env S derive (o ++ extra) = some f := decode_ignores_unknown env S derive o extra f hd hx
+
+open Rip.Gen in
+/-- **a frame a live subscriber received is already in the log and in the per-thread sidecar**: every
+continuity append writes the truth log, then the sidecar, and only then publishes (regenerated effect
+orders of the eleven append functions) — so at no moment, and after no crash, has a delivered frame
+failed to reach the two stored views -/
+theorem gen_appends_store_before_publish :
+    [10, 11, 12, 13, 14, 15, 16, 17, 18, 19, 20].all (fun id =>
+      (orderOf id).filter (fun e => e == .logAppend || e == .cacheAppend || e == .publish)
+        == [.logAppend, .cacheAppend, .publish]) = true := by decide
 
 end Rip.Props.C03
